@@ -226,17 +226,17 @@ def z_normal_form(items):
     return z3.And(conj)
 
 
-def _member(ex, st, items, assume_fn):
+def _member(ex, st, items, assume_fn, tag="member"):
     """the membership Boolean of a string in the key set of this path (consistent with every earlier question)"""
     for ev in st.log:
-        if ev[0] == "member" and len(ev[1]) == len(items) and all(z3.eq(z3.simplify(a.e), z3.simplify(b.e)) for a, b in zip(ev[1], items)):
+        if ev[0] == tag and len(ev[1]) == len(items) and all(z3.eq(z3.simplify(a.e), z3.simplify(b.e)) for a, b in zip(ev[1], items)):
             return ev[2]
     b = z3.Bool(ex.fresh_name("bound"))
     assume_fn(z3.Implies(b, z_normal_form(items)))
     for ev in st.log:
-        if ev[0] == "member" and len(ev[1]) == len(items):
+        if ev[0] == tag and len(ev[1]) == len(items):
             assume_fn(z3.Implies(z3.And([x.e == y.e for x, y in zip(ev[1], items)] + [z3.BoolVal(True)]), b == ev[2]))
-    st.log.append(("member", list(items), b))
+    st.log.append((tag, list(items), b))
     return b
 
 
@@ -246,6 +246,13 @@ def m_flatten_keys(ex, st, callee, args, dest_ty):
 
 def m_keyset_contains(ex, st, callee, args, dest_ty):
     items = _items(ex, st, deref(ex, st, args[1]))
+    which = deref(ex, st, args[0]) if isinstance(args[0], Ref) else args[0]
+    if isinstance(which, Opaque) and which.sort == "KeySet" and isinstance(which.e, str) and which.e.startswith("state:"):
+        # a set the lexer keeps itself (not the scope's keys): after an arbitrary history of tokens it holds an arbitrary set of names
+        b = _member(ex, st, items, lambda c: ex.assume(st, c), tag="member:" + which.e)
+        st.log.append(("asked_state", which.e))
+        yield st, mk_bool(b)
+        return
     b = _member(ex, st, items, lambda c: ex.assume(st, c))
     st.log.append(("asked", list(items), b))
     yield st, mk_bool(b)
@@ -468,10 +475,20 @@ def run(check, mirror, tier):
                     "position": mk_int(0, "usize"), "unary_tests": mk_bool(False), "between": mk_bool(False), "type_name": mk_bool(False),
                     "till_in": mk_bool(till_in)}
             missing = [f for f in lf if f not in vals]
+            import interior
+            ftypes = interior.struct_field_types(mirror.read("feel-parser/src/lexer.rs"), "Lexer")
+            state_fields = []
+            for f in list(missing):
+                # a set of names the lexer maintains itself (a cache of the scope's keys, say): one token is an inductive step from an
+                # arbitrary history of earlier tokens, so the set is arbitrary - the scope alone must decide what a name is
+                if re.match(r"^(std::collections::)?(HashSet|BTreeSet)<(std::string::)?String>$", ftypes.get(f, "")):
+                    vals[f] = Opaque("KeySet", "state:" + f)
+                    state_fields.append(f)
+                    missing.remove(f)
             if missing:
                 raise MirUnsupported("Lexer has fields the model does not know: %s" % missing)
             lx = Ref(ex.new_cell(st, Adt("struct", "Lexer", [vals[f] for f in lf]), "lexer"))
-            inputs = dict(len=n.e, _lexer=lx, _chars=chars, _till_in=till_in)
+            inputs = dict(len=n.e, _lexer=lx, _chars=chars, _till_in=till_in, _state_fields=state_fields)
             for k in range(N):
                 inputs["c%d" % k] = chars[k].e
             return "Lexer::consume_name", [lx], inputs
@@ -602,6 +619,8 @@ def run(check, mirror, tier):
     def desc(m, v):
         n = model_value(m, v["len"])
         d = {"text": [model_value(m, v["c%d" % k]) for k in range(n)], "till_in": v["_till_in"]}
+        if v.get("_state_fields"):
+            d["lexer_state"] = list(v["_state_fields"])
         return d
 
     def describe_with_keys(m, v, st=None):
@@ -611,7 +630,25 @@ def run(check, mirror, tier):
         ok_ = lambda c: z3.Or([c == ord(x) for x in "abin.-+ ("])
         return z3.And([ok_(v["c%d" % k]) for k in range(N)])
 
+    HISTORIES = [("{monthly rate: 2}", "sum(for monthly rate in [1, 2] return monthly rate) + monthly rate * 12", "27"),
+                 ("{unit price: 10}", "{line: {unit price: 2}, total: unit price * 3}.total", "30"),
+                 ("{a b: 2}", "(function(a b) a b + 1)(5) + a b * 3", "12"),
+                 ("{a b: 2}", "(some a b in [1, 2] satisfies a b > 1) and a b * 2 = 4", "true")]
+
+    def replay_histories(i, rb):
+        """state the lexer keeps across tokens shows only after a history: a bound multi-word name, shadowed inside a construct that ends, used again"""
+        notes, bad = [], False
+        for ctx, expr, want in HISTORIES:
+            _, out, _ = replay_call(rb, ["feelctx", ctx, expr])
+            dev = out.strip() != "VALUE " + want
+            bad = bad or dev
+            if dev:
+                notes.append("with %s: %s -> %s, specified %s" % (ctx, expr, out[:70], want))
+        return bad, "; ".join(notes) or "the history expressions evaluate as specified"
+
     def replay(i, rb):
+        if i.get("lexer_state"):
+            return replay_histories(i, rb)
         text = "".join(chr(c) for c in i["text"])
         parts, stop = py_parts(text)
         words = [p for p, _ in parts]
